@@ -153,8 +153,9 @@ claim("C05",
       "Theorems, for every table (any columns, id at any position, guards) with distinct folded names and every history: Insert returns the item with its id and stores it, Update replaces the item of that id only (WHERE id = $n), Select/Delete by id, ids, foreign key, unique columns or select key return (and remove) exactly the matching items, "
       "histories of generated calls refine the list-of-items model, an inserted row comes back equal from the select by id, link tables append/remove links, every model statement carries placeholders $1..$n for n arguments. "
       "On every run the real generated Go file is parsed (SQL text, argument expressions, scan destinations), compared function by function with the model, and every statement is checked in Coq against the schema parsed from the real SQL script (tables/columns exist up to case, written columns receive item.<their field>, unwritten columns have a default, result columns line up with scan destinations).",
-      "Partial: no SQL engine offline, so 'executes without SQL error' is decided by the static conditions above plus the store semantics of Sem/SqlStore.v (a reading of PostgreSQL for the emitted subset); column types and Scan/Value converters are not executed. Trusted: the Go-file and SQL readers (any statement outside the generated forms is reported).",
-      "Coq proof (refinement of the list-of-items model by the generated statements, unbounded histories) + parsed-statement correspondence + schema well-formedness evaluated in Coq", "DESIGN.md §5 C05")
+      "Run-time oracle: the generated CRUD file (after goimports), the source package and a functional stand-in for lib/pq are compiled into a test binary; histories of the generated functions (Insert, Select*, Update, Delete*, InsertMany, by foreign key / unique columns / select key), called by reflection with random items, run over database/sql against an in-memory driver that enforces the schema parsed from the generated script (column kinds, NOT NULL, serial ids, defaults, enum and array-length CHECKs, UNIQUE groups, transactions), and are compared with a map model: this executes the Scan/Value converters of every column kind. "
+      "No PostgreSQL offline: the driver and Sem/SqlStore.v are readings of PostgreSQL for the emitted subset (foreign keys and the jsonb validators are not enforced there: C04). Trusted: the Go-file and SQL readers, the in-memory driver, the lib/pq stand-in.",
+      "Coq proof (refinement of the list-of-items model by the generated statements, unbounded histories) + parsed-statement correspondence + schema well-formedness evaluated in Coq + run-time histories against a schema-enforcing in-memory database/sql driver", "DESIGN.md §5 C05")
 
 NOT_YET = "check not built yet in this round (planned, see DESIGN.md §6)"
 
